@@ -1211,6 +1211,25 @@ pub fn run(ctx: &mut Ctx) {
     phase_all_strings(ctx, &[(Dec::Multipart, All)], A_MULTIPART, len_mp, CH, "multipart");
     phase_all_strings(ctx, &[(Dec::Utf8, All)], A_UTF8, len_utf8, CH, "utf8");
 
+    // ---- long values (phase C) ----
+    // Short token strings never reach code that treats a *long* refused value differently from a short one (an error message that
+    // quotes a cut of the input, a scratch buffer with a fixed size).  So: a value of 0..48 ASCII bytes followed by one multi-byte
+    // character (2, 3 and 4 bytes; written raw and percent-encoded) and a short tail - every byte offset at which a cut could fall
+    // inside the character - for every target, through the key=value decoders.
+    {
+        let mbs: [(&str, &str); 3] = [("\u{e9}", "%C3%A9"), ("\u{72fc}", "%E7%8B%BC"), ("\u{1f43a}", "%F0%9F%90%BA")];
+        let mut by_dec: Vec<(Dec, Sel, Vec<Vec<u8>>)> = vec![(Dec::Urlenc, Core, vec![]), (Dec::QueryParse, Core, vec![]), (Dec::Cookie, Core, vec![]), (Dec::Utf8, All, vec![])];
+        for pad in 0..=48usize { for (raw_c, pct_c) in mbs { for pct in [false, true] { for lead in ["x", "7"] {
+            let value = format!("{}{}yz", lead.repeat(pad), if pct { pct_c } else { raw_c });
+            by_dec[0].2.push(format!("a={value}").into_bytes());
+            if pct { by_dec[1].2.push(format!("a={value}").into_bytes()); by_dec[2].2.push(format!("a={value}").into_bytes()); }
+            if !pct { by_dec[3].2.push(value.clone().into_bytes()); }
+        } } } }
+        for (dec, sel, inputs) in by_dec {
+            if !ctx.mine() { continue }
+            run_unit(ctx, &Unit::new(dec, sel, inputs, format!("{}:long-value", dec.name())));
+        }
+    }
     // ---- well-formed skeletons with token edits ----
     phase_edits(ctx, &[(Dec::Urlenc, Core)], A_URLENC, &urlenc_skeletons(), &|_| edits_form, len_form, "form");
     phase_edits(ctx, &[(Dec::QueryParse, Core), (Dec::QueryIter, All)], A_URLENC, &urlenc_skeletons(), &|_| 1, len_form - 1, "query");
